@@ -47,10 +47,13 @@ def main():
     ap.add_argument("--jobs", type=int, default=3)
     ap.add_argument("--only", default="")
     ap.add_argument("--checks", default="")
+    ap.add_argument("--missing", action="store_true", help="only seeds without a recorded result for this tier")
     a = ap.parse_args()
     seeds = sorted(s for s in os.listdir(SEEDED) if os.path.isdir(os.path.join(SEEDED, s)) and s.startswith(a.only))
     respath = os.path.join(SEEDED, "RESULTS.json")
     results = json.load(open(respath)) if os.path.exists(respath) else {}
+    if a.missing:
+        seeds = [x for x in seeds if a.tier not in results.get(x, {})]
     jobs = []
     with concurrent.futures.ThreadPoolExecutor(a.jobs) as ex:
         for sid in seeds:
